@@ -11,7 +11,9 @@ impl PackageExports {
 }
 impl ImportSet { pub uninterp spec fn view(&self) -> Set<Seq<char>>; }
 #[verifier::external_body]
-pub fn read_source_files(package: &String, input_files: &Vec<PathBuf>) -> (r: Result<(SourceFiles, ImportSet, SourceList), CompilationError>) { unimplemented!() }
+pub fn read_source_files(package: &String, input_files: &Vec<PathBuf>) -> (r: Result<(SourceFiles, ImportSet, SourceList), CompilationError>)
+    ensures r is Ok ==> package@ != "Builtin"@        // the contract proved on the real function in U-LOADPKG (`!reserved_package_name(package@)`)
+{ unimplemented!() }
 // `imports.into_iter().collect(); sort(); dedup()`: the imported names, each once (order irrelevant to the contract)
 #[verifier::external_body]
 pub fn sorted_import_names(imports: ImportSet) -> (r: Vec<String>)
@@ -53,12 +55,29 @@ pub open spec fn built_against(envs: Map<Seq<char>, GlobalTypeEnv>, ifaces: Map<
 // the rest of check_package / build_package (type checking, Core generation): outside this unit, but it may only be entered
 // with consistent inputs
 #[verifier::external_body]
-pub fn check_rest(package: &String, files: SourceFiles, deps_interfaces: StrMap<PackageInterface>, deps_envs: StrMap<GlobalTypeEnv>, dep_hashes: DepMap)
+pub fn check_rest(package: &String, files: SourceFiles, deps_interfaces: StrMap<PackageInterface>, deps_envs: StrMap<GlobalTypeEnv>, dep_hashes: DepMap, Ghost(imports): Ghost<Set<Seq<char>>>)
     -> (r: Result<InterfaceUnit, CompilationError>)
     requires built_against(deps_envs@, deps_interfaces@, dep_hashes.view2()),
+             not_self_import(imports, package@),
 { unimplemented!() }
 #[verifier::external_body]
 pub fn build_rest(package: &String, files: SourceFiles, sources: SourceList, deps_interfaces: StrMap<PackageInterface>, deps_envs: StrMap<GlobalTypeEnv>,
-                  dep_hashes: DepMap, dep_units: Vec<InterfaceUnit>) -> (r: Result<CoreUnit, CompilationError>)
+                  dep_hashes: DepMap, dep_units: Vec<InterfaceUnit>, Ghost(imports): Ghost<Set<Seq<char>>>) -> (r: Result<CoreUnit, CompilationError>)
     requires built_against(deps_envs@, deps_interfaces@, dep_hashes.view2()),
+             not_self_import(imports, package@),
 { unimplemented!() }
+// ---- C16: import cycles are errors — the 1-cycle `package A; import A` in the separate drivers ----
+pub open spec fn not_self_import(imports: Set<Seq<char>>, package: Seq<char>) -> bool { !imports.contains(package) }
+// k is among the names still to be visited (the work list is drained from the front)
+pub open spec fn pending(v: Seq<String>, k: Seq<char>) -> bool
+    decreases v.len(),
+{
+    v.len() > 0 && (v[0]@ == k || pending(v.remove(0), k))
+}
+pub proof fn lemma_pending_intro(v: Seq<String>, i: int, k: Seq<char>)
+    requires 0 <= i < v.len(), v[i]@ == k,
+    ensures pending(v, k),
+    decreases i,
+{
+    if i > 0 { lemma_pending_intro(v.remove(0), i - 1, k); }
+}
